@@ -4,5 +4,5 @@ cd "$(dirname "$0")/.."
 ids=$(python3 -c "import json; print(' '.join(c['property_id'] for c in json.load(open('MANIFEST.json'))['checks']))")
 tier=${1:-quick}
 for i in $ids; do ( ./check $i --tier $tier > /var/tmp/nv_scratch/run_$i.log 2>&1; echo "$i exit=$? $(tail -1 /var/tmp/nv_scratch/run_$i.log)" ) & 
-  while [ $(jobs -r | wc -l) -ge 4 ]; do sleep 0.5; done
+  while [ $(jobs -r | wc -l) -ge 3 ]; do sleep 0.5; done
 done; wait
